@@ -356,6 +356,39 @@ class C13(BaseCheck):
             for ti, t in enumerate(threads):
                 if refs and k.random() < 0.7:
                     t['ops'].insert(0, {'op': 'filter', 'f': refs[ti % len(refs)]})
+        if knobs['deps'] or k.random() < 0.15:
+            # lazily initialised pieces of the shared grammar (pyparsing probes each parse action on its first
+            # call) are only at risk when two threads use the same kind of literal for the first time together:
+            # every thread opens with its own filter of one literal kind
+            kindK = k.choice(['coord', 'uri', 'bool', 'refeq', 'str', 'paren', 'ref'])
+            same = [i for i, f in enumerate(pool) if f['kind'] == kindK]
+            tries = 0
+            while len(same) < len(threads) and tries < 40:
+                tries += 1
+                f = {'kind': kindK}
+                if kindK in ('coord', 'uri'):
+                    f['v'] = k.randrange(nrows)
+                elif kindK == 'bool':
+                    f['v'] = k.random() < 0.5
+                elif kindK == 'refeq':
+                    f['v'] = k.randrange(4)
+                elif kindK == 'str':
+                    f['o'] = '=='
+                    f['s'] = k.choice(STRS[:min(nrows, len(STRS))])
+                elif kindK == 'ref':
+                    f['t'] = k.choice(sorted(spec['tags']))
+                else:
+                    f['t'], f['u'] = k.sample(sorted(spec['tags']), 2)
+                    f['v'] = k.randrange(nrows - 1)
+                rows_ = expected_rows(spec, f)
+                if not rows_ or len(rows_) == nrows or any(p['rows'] == rows_ for p in pool):
+                    continue
+                f['rows'] = rows_
+                pool.append(f)
+                same.append(len(pool) - 1)
+            for ti, t in enumerate(threads):
+                if same:
+                    t['ops'].insert(0, {'op': 'filter', 'f': same[ti % len(same)]})
         case = {'class': cls, 'grid': spec, 'pool': pool, 'threads': threads, 'knobs': knobs, 'fault': None}
         if cls == 'threads-fault':
             f = rng.stream(run_seed, 'faults')
